@@ -303,9 +303,18 @@ def failed_non_drain_sessions(line, itoks):
     return out
 
 
+# marks the verdict of the input class of the open finding `drain_break_strands_delayed` (KNOWN_FINDINGS.txt)
+DRAIN_BREAK = "coap_session_connected() stopped draining at a failing socket write (`if (bytes_written < 0) break;`):"
+
+
 def oracle_c08(line, itoks):
     """C08 on the trace of I alone: con_active = in flight <= NSTART after every event, held messages first go out
-    in submission order, a NON on an established session goes out at once, failure NACKs every held CON once."""
+    in submission order, a NON on an established session goes out at once, failure NACKs every held CON once.
+    Lines with failing socket writes (fate `x`, `txf@`): "transmitted" is the write ATTEMPT (a datagram whose write fails is
+    lost one hop earlier than one lost on the wire) - first attempts are in submission order, a message whose write was
+    attempted is no longer held; "in flight" (the ledger) starts at the first write that SUCCEEDED.  con_active = nodes
+    in the send queue <= NSTART is judged as on every line: a Confirmable that left the delay queue is in the send queue
+    whatever its write returned, so it occupies a slot whatever its write returned."""
     sess, fates, evs, steps = walk(line, itoks)
     if len(steps) != len(evs):
         return None
@@ -314,6 +323,11 @@ def oracle_c08(line, itoks):
     order = {s: [] for s in range(len(sess))}       # accepted CON submissions, in order
     first_tx = {s: [] for s in range(len(sess))}
     seen_tx = set()
+    prev_q = set()                                  # (session, mid) of the nodes in the send queue when the event began
+    prev_dq = [0] * len(sess)                       # delay-queue lengths when the event began
+    # the loop of coap_session_connected() stops at a failing write (`if (bytes_written < 0) break;`): the messages behind
+    # the failed one wait until the NEXT exchange of the session finishes (the gate is re-opened by whatever ends it)
+    broken = [False] * len(sess)
     hist = InFlightLedger(sess, fates, evs)
     for ev, ts, (ca, dq, q) in steps:
         f = ev.split(":")
@@ -326,8 +340,18 @@ def oracle_c08(line, itoks):
                 return "after `%s`: con_active of session %d is %d but %d Confirmables are waiting for their ACK" % (ev, s, ca[s], infl)
             if infl > sess[s][5]:
                 return "after `%s`: %d Confirmables in flight on session %d, NSTART is %d" % (ev, infl, s, sess[s][5])
+        att_in_ev = set()
         for t in ts:
-            m = TX.match(t)
+            m = TX.match(t) or TXF.match(t)
+            if m and m.group(3) in "CN":
+                key = (int(m.group(2)), int(m.group(4)))
+                direct = f[0] in ("s", "S") and (int(f[1]), int(f[3])) == key
+                if key not in att_in_ev and key not in prev_q and not direct and key[0] < len(broken):
+                    # neither coap_send() nor a retransmission (the message was not in the send queue when the event began
+                    # and this is its first write within the event): the message comes out of the delay queue - one round
+                    # of the drain loop, which goes on iff the write succeeded
+                    broken[key[0]] = t.startswith("txf@")
+                att_in_ev.add(key)
             if m and m.group(3) == "C":
                 key = (int(m.group(2)), int(m.group(4)))
                 if key not in seen_tx:
@@ -336,10 +360,17 @@ def oracle_c08(line, itoks):
         if f[0] in ("s", "S"):
             s, con, mid = int(f[1]), f[2] == "c", int(f[3])
             accepted = any(SUB.match(t) and t != "sub=rej" for t in ts)
+            if (con and s < len(broken) and broken[s] and s < len(prev_dq) and prev_dq[s] > 0 and est[s] and opened[s]
+                    and (s, mid) in att_in_ev):
+                # the other consequence of the stopped drain loop: a slot is free while messages are held, and coap_send_pdu()
+                # looks at con_active only
+                return ("after `%s`: %s Confirmable %d is transmitted at once, overtaking the %d message(s) session %d still holds" % (
+                    ev, DRAIN_BREAK, mid, prev_dq[s], s))
             if accepted and con:
                 order[s].append(mid)
             if accepted and not con and est[s] and opened[s]:
-                if not any(TX.match(t) and TX.match(t).group(3) == "N" and int(TX.match(t).group(4)) == mid for t in ts):
+                if not any((TX.match(t) or TXF.match(t)) and (TX.match(t) or TXF.match(t)).group(3) == "N"
+                           and int((TX.match(t) or TXF.match(t)).group(4)) == mid for t in ts):
                     return "NON %d submitted on established session %d was not transmitted at once" % (mid, s)
         elif f[0] == "h":
             est[int(f[1])] = False
@@ -363,9 +394,18 @@ def oracle_c08(line, itoks):
             # "held and later transmitted as earlier exchanges finish": on an established session a message waits only
             # while NSTART Confirmables are in flight (a keepalive ping is one of them)
             infl = sum(1 for n in q if n[0] == s)
+            if s < len(dq) and dq[s] == 0:
+                broken[s] = False
+            if broken[s] and est[s] and opened[s] and s < len(dq) and dq[s] > 0:
+                if infl > 0:
+                    continue         # the drain loop stopped at a failing write: resumed when the next exchange finishes
+                return ("after `%s`: %s session %d is established and holds %d message(s) with NO Confirmable in flight: nothing will "
+                        "ever transmit them" % (ev, DRAIN_BREAK, s, dq[s]))
             if est[s] and opened[s] and s < len(dq) and dq[s] > 0 and infl < sess[s][5]:
                 return "after `%s`: session %d is established and holds %d message(s) although only %d of NSTART=%d Confirmables are in flight" % (
                     ev, s, dq[s], infl, sess[s][5])
+        prev_q = {(n[0], n[1]) for n in q}
+        prev_dq = list(dq)
     for s in range(len(sess)):
         sub_once = [m for m in order[s] if order[s].count(m) == 1]
         ft = [m for m in first_tx[s] if m in sub_once]
@@ -386,11 +426,13 @@ class InFlightLedger:
     a reply of the scripted peer counts from the moment it MAY have been delivered (arrival time <= now), a response
     concludes every message with its token transmitted up to and including the event it arrives in, message ids used twice
     and sessions that are taken out of ESTABLISHED by `h:` (a retransmission then goes back to the delay queue) are not
-    judged, nor are lines with failing socket writes."""
+    judged.  A socket write that fails (`txf@`, fate `x`) sends nothing: the message is in flight from its first write
+    that SUCCEEDED (the library counts it earlier - from the moment it is in the send queue; that is judged by the
+    con_active clause); the failed attempt consumes its fate like every datagram handed to the socket."""
 
     def __init__(self, sess, fates, evs):
         self.sess, self.fates = sess, fates
-        self.on = not any(f and f[0] == "x" for f in fates)
+        self.on = True
         self.skip = {int(e.split(":")[1]) for e in evs if e.startswith("h:")}
         self.subs, self.tok = {}, {}
         for e in evs:
@@ -650,6 +692,35 @@ def gen_scenario_x(rng, flavor=None):
     if with_hold:
         evs += ["u:%d" % s for s in range(ns)] + ["g:%d" % (25 if kaf else 3000)]
     return "msg %s %s %s" % (",".join(sess), ",".join(fates) if fates else "-", " ".join(evs))
+
+
+def gen_scenario_w(rng):
+    """one `msg` line of the c08 flavour (bursts of CON/NON against NSTART 1..4, holds, failures, stray replies) in which
+    some socket writes FAIL (fate `x`, interpreted with Model/MsgLayerW.lean): the first transmission in coap_send(), a
+    retransmission, and - what C08 is about - the first transmission of a held message that coap_session_connected() takes
+    out of the delay queue when an exchange finishes or the session comes up.  UDP sessions only (harness/msg.c and the
+    driver answer bad-op for `x` on a DTLS session); enough ACK fates that exchanges do finish and the queue is drained."""
+    w = gen_scenario(rng, "c08").split()
+    sess = ",".join(p[:-2] if p.count(".") == 6 else p for p in w[1].split(","))
+    fates = [] if w[2] == "-" else w[2].split(",")
+    nmsg = sum(1 for e in w[3:] if e.startswith("s:"))
+    want = rng.randint(nmsg, 3 * nmsg)
+    while len(fates) < want:
+        fates.append(rng.choice(["a0", "a1", "a10", "a50", "a400", "a1000", "d", "r50"]))
+    for _ in range(rng.choice([1, 1, 2, 3, 5])):
+        pos = rng.randrange(len(fates) + 1)
+        if pos < len(fates) and rng.random() < 0.5:
+            fates[pos] = "x"
+        else:
+            fates.insert(pos, "x")
+    evs = w[3:]
+    if rng.random() < 0.5:
+        # the application goes on submitting after the burst has (partly) drained: new messages must queue up behind the
+        # held ones, whatever happened to the writes of those that were released
+        s = rng.randrange(len(sess.split(",")))
+        k = rng.randint(max(1, len(evs) // 2), len(evs) - 1)
+        evs = evs[:k] + ["t:%d" % rng.choice([1, 20, 100, 400, 1000]), "s:%d:c:%d:%d" % (s, 40000 + rng.randrange(1000), rng.randrange(256))] + evs[k:]
+    return "msg %s %s %s" % (sess, ",".join(fates), " ".join(evs))
 
 
 def judge_msg(ctx, c, oracle):
